@@ -88,6 +88,7 @@ def user_sources(ctx, rng, idx):
     src = _sources(rng, neq, sub)
     mp = dict(s0.mparams)
     model1 = euler.euler1d(gamma=mp["gamma"], source=src) if mname == "euler1d" else shw.shallowwater1d(g=mp["g"], source=src)
+    gen.maybe_decoy(rng)
     disc1 = md.fvm(model1, s0.mesh, s0.num, numflux=s0.flux, bcL=s0.bcL, bcR=s0.bcR)
     ctx.describe(sources=[c.desc() if c else None for c in src], **s0.desc())
     R0 = [r.copy() for r in s0.disc.rhs(s0.field)]
@@ -119,6 +120,7 @@ def nozzle_geometric(ctx, rng, idx):
     sec, kind = _section(rng, s0.mesh.length, "const" if idx % 4 == 0 else None)
     gam = s0.mparams["gamma"]
     modeln = euler.nozzle(sec, gamma=gam)
+    gen.maybe_decoy(rng)
     discn = md.fvm(modeln, s0.mesh, s0.num, numflux=s0.flux, bcL=s0.bcL, bcR=s0.bcR)
     ctx.describe(section=sec.desc, **s0.desc())
     R0 = [r.copy() for r in s0.disc.rhs(s0.field)]
@@ -151,6 +153,7 @@ def nozzle_user(ctx, rng, idx):
     ctx.describe(section=sec.desc, sources=[c.desc() if c else None for c in src], **s0.desc())
     m0 = euler.nozzle(sec, gamma=gam)
     m1 = euler.nozzle(sec, gamma=gam, source=src)
+    gen.maybe_decoy(rng)
     d0 = md.fvm(m0, s0.mesh, s0.num, numflux=s0.flux, bcL=s0.bcL, bcR=s0.bcR)
     d1 = md.fvm(m1, s0.mesh, s0.num, numflux=s0.flux, bcL=s0.bcL, bcR=s0.bcR)
     f0 = gen.fdata_prim(m0, s0.mesh, s0.prim); f1 = gen.fdata_prim(m1, s0.mesh, s0.prim)
